@@ -303,6 +303,26 @@ def workers_file(pools: list) -> list:
     return out
 
 
+def share_equal(data):
+    """Equal mappings / lists become ONE Python object, so that yaml.safe_dump writes an anchor and aliases
+    (`&id001` / `*id001`) - and yaml.safe_load hands the loader the same object several times."""
+    pool = {}
+
+    def walk(x):
+        if isinstance(x, dict):
+            y = {k: walk(v) for k, v in x.items()}
+        elif isinstance(x, list):
+            y = [walk(v) for v in x]
+        else:
+            return x
+        if not y:
+            return y
+        key = json.dumps(y, sort_keys=True, default=str)
+        return pool.setdefault(key, y)
+
+    return walk(data)
+
+
 def write_file(data, ext: str, scratch: Path, stem: str) -> Path:
     m = mods()
     path = scratch / f"{stem}.{ext}"
@@ -310,6 +330,9 @@ def write_file(data, ext: str, scratch: Path, stem: str) -> Path:
         if ext.lower() == "json":
             json.dump(data, f, indent=1)
         else:
+            # every second YAML description (by content) is written with anchors / aliases for repeated parts
+            if len(json.dumps(data, sort_keys=True, default=str)) % 2 == 0:
+                data = share_equal(data)
             m["yaml"].safe_dump(data, f, sort_keys=False, default_flow_style=None)
     return path
 
@@ -414,8 +437,8 @@ def obs_job_graph(jg, labels: Labels):
         "variance": None if jg._deadline_variance is None else list(jg._deadline_variance),  # None: the loader dropped it
         "jobs": jobs,
         "T": T,
-        "remaining": jg._remaining_task_graphs,
-        "index": jg._task_graph_index,
+        "remaining": getattr(jg, "_remaining_task_graphs", "<no such attribute>"),
+        "index": getattr(jg, "_task_graph_index", "<no such attribute>"),
     }
 
 
@@ -495,7 +518,7 @@ def run_workload(case: dict, scratch: Path):
             "ok": obs,
             "history": history,
             "released": released,
-            "loops": [{"remaining": jg._remaining_task_graphs, "index": jg._task_graph_index} for jg in wl.job_graphs.values()],
+            "loops": [{"remaining": getattr(jg, "_remaining_task_graphs", "<no such attribute>"), "index": getattr(jg, "_task_graph_index", "<no such attribute>")} for jg in wl.job_graphs.values()],
             "tape_left": len(px.tape.tape) - px.tape.pos,
             "tape_overrun": px.tape.overrun,
             "np_calls": px.shared["calls"],
